@@ -1,5 +1,6 @@
 import CfrVerif.Proofs.CompileWF
 import CfrVerif.Proofs.ViewBridge
+import CfrVerif.Proofs.RawSemLemmas
 /-!
 # What a game tree means, independently of its compiled form
 
@@ -44,12 +45,271 @@ def Game.labelled (g : Game α) (σ : Bool → Strat α) : LProfile α := fun o 
     | none => 0
   | none => if (g.singles o).any (fun e => e.1 == l && e.2 == a) then 1 else 0
 
+
+/-! ## the labelled reading on registered infosets -/
+
+theorem labelled_single (g : Game α) (σ : Bool → Strat α) (o : Bool) (l a : Nat)
+    (htw : TablesWF (g.infos o) (g.singles o)) (hm : (l, a) ∈ g.singles o) :
+    g.labelled σ o l a = 1 := by
+  have hnone : (g.infos o).findIdx? (fun e => e.label == l) = none := by
+    rw [List.findIdx?_eq_none_iff]
+    intro e he
+    have hd := htw.disjoint e.label (List.mem_map.mpr ⟨e, he, rfl⟩)
+    simp only [beq_eq_false_iff_ne, ne_eq]
+    intro hl
+    apply hd
+    rw [hl]
+    exact List.mem_map.mpr ⟨(l, a), hm, rfl⟩
+  unfold Game.labelled
+  rw [hnone]
+  simp only
+  rw [if_pos]
+  exact List.any_eq_true.mpr ⟨(l, a), hm, by simp⟩
+
+theorem labelled_at (g : Game α) (σ : Bool → Strat α) (o : Bool) (i : Nat) (e : PInfo)
+    (htw : TablesWF (g.infos o) (g.singles o)) (he : (g.infos o)[i]? = some e)
+    (k : Nat) (hk : k < e.actions.length) :
+    g.labelled σ o e.label e.actions[k] = ((σ o).at i).getD k 0 := by
+  unfold Game.labelled
+  rw [findIdx?_of_nodup (·.label) _ i e htw.labelsNodup he]
+  simp only
+  have hget : (g.infos o).getD i default = e := by simp [List.getD_eq_getElem?_getD, he]
+  rw [hget, findIdx?_self_of_nodup e.actions k hk (htw.actionsNodup e (List.mem_of_getElem? he))]
+
+theorem labelled_multi (g : Game α) (σ : Bool → Strat α) (o : Bool) (i : Nat) (e : PInfo)
+    (htw : TablesWF (g.infos o) (g.singles o)) (he : (g.infos o)[i]? = some e)
+    (hfit : FitsGame g o (σ o)) :
+    e.actions.map (g.labelled σ o e.label) = (σ o).at i := by
+  obtain ⟨v, hv, hvl⟩ := fits_at g o (σ o) hfit i e he
+  have e' : (σ o).at i = v := by simp [Strat.at, List.getD_eq_getElem?_getD, hv]
+  apply List.ext_getElem (by simp [e', hvl])
+  intro k h1 h2
+  have hk : k < e.actions.length := by simpa using h1
+  rw [List.getElem_map, labelled_at g σ o i e htw he k hk]
+  simp [List.getD_eq_getElem?_getD, h2]
+
+/-! ## the tree is registered in the tables -/
+
+mutual
+/-- every decision node of the tree has its infoset in the tables `sf`: a single-action node in the
+singles table, a multi-action node in the infoset table with exactly its actions -/
+def Reg (sf : BState α) : Raw α → Prop
+  | .term _ => True
+  | .chance _ _ ks => RegL sf ks
+  | .player o l as ks =>
+    ((∃ a, as = [a] ∧ (l, a) ∈ sf.singles o) ∨
+      (∃ (i : Nat) (e : PInfo), (sf.infos o)[i]? = some e ∧ e.label = l ∧ e.actions = as)) ∧ RegL sf ks
+def RegL (sf : BState α) : List (Raw α) → Prop
+  | [] => True
+  | k :: ks => Reg sf k ∧ RegL sf ks
+end
+
+/-- a valid profile of the game read off the tables `sf` -/
+def Good (sf : BState α) (σ : Bool → Strat α) : Prop :=
+  ∀ me : Bool, IsStrat (σ me) ∧ FitsGame (G sf) me (σ me)
+
+mutual
+theorem compile_sem : ∀ (r : Raw α) (prev : Prev) (s s' : BState α) (n : Node α),
+    Raw.Shape r → compile r prev s = .ok (n, s') →
+    GrowsAll s s' ∧ ∀ sf, GrowsAll s' sf → (∀ o, TablesWF (sf.infos o) (sf.singles o)) →
+      Reg sf r ∧ ∀ σ, Good sf σ →
+        expected (G sf).chance σ n = rawEV ((G sf).labelled σ) r
+  | .term pay, prev, s, s', n, _, h => by
+    simp only [compile] at h
+    split_ifs at h
+    cases h
+    exact ⟨GrowsAll.refl _, fun sf _ _ => ⟨by simp [Reg], fun σ _ => by simp [expected, rawEV]⟩⟩
+  | .chance info ws kids, prev, s, s', n, hs, h => by
+    simp only [compile] at h
+    split at h
+    · cases h
+    · rename_i probs nodes s1 hco
+      simp only [Raw.Shape] at hs
+      obtain ⟨hg1, hps, hlen, hpos, ih⟩ :=
+        compileOutcomes_sem ws kids prev s s1 probs nodes hs.1 hs.2 hco
+      subst hps
+      obtain ⟨hg2, _, hcase⟩ := registerChance_spec h
+      refine ⟨hg1.trans hg2, fun sf hgf htw => ?_⟩
+      obtain ⟨hreg, hev⟩ := ih sf (hg2.trans hgf) htw
+      refine ⟨by simpa only [Reg] using hreg, fun σ hσ => ?_⟩
+      have key := hev σ hσ probs.sum
+      simp only [rawEV]
+      rw [← key]
+      rcases hcase with hone | ⟨h2, i, x, rfl, hi⟩
+      · subst hone
+        have hl1 : probs.length = 1 := by rw [hs.1, ← hlen]; rfl
+        obtain ⟨w, rfl⟩ := List.length_eq_one_iff.mp hl1
+        have hw : (0 : α) < w := hpos w (by simp)
+        simp [expectedL, div_self (ne_of_gt hw)]
+      · have hi' : sf.chance[i]? = some (x, probs.map (· / lsum probs)) :=
+          prefix_getElem? hgf.chance hi
+        simp only [expected]
+        congr 1
+        simp [G, List.getD_eq_getElem?_getD, List.getElem?_map, hi', lsum_eq_sum]
+  | .player one info [] kids, prev, s, s', n, hs, h => by
+    simp [compile] at h
+  | .player one info (a :: as) [], prev, s, s', n, hs, h => by
+    simp [compile] at h
+  | .player one info [a] (k :: ks), prev, s, s', n, hs, h => by
+    simp only [compile] at h
+    split at h
+    · cases h
+    · rename_i s1 hr
+      simp only [Raw.Shape, Raw.ShapeL] at hs
+      obtain ⟨hg1, hmem, _⟩ := registerSingle_spec hr
+      obtain ⟨hg2, ih⟩ := compile_sem k prev s1 s' n hs.2.1 h
+      have hks : ks = [] := by
+        have := hs.1
+        simp only [List.length_cons, List.length_nil] at this
+        exact List.eq_nil_of_length_eq_zero (by omega)
+      subst hks
+      refine ⟨hg1.trans hg2, fun sf hgf htw => ?_⟩
+      obtain ⟨hreg, hev⟩ := ih sf hgf htw
+      have hm' : (info, a) ∈ sf.singles one := prefix_mem ((hg2.trans hgf).singles one) hmem
+      refine ⟨?_, fun σ hσ => ?_⟩
+      · simp only [Reg, RegL]
+        exact ⟨Or.inl ⟨a, rfl, hm'⟩, hreg, trivial⟩
+      · rw [hev σ hσ]
+        simp only [rawEV, rawEVP]
+        rw [labelled_single (G sf) σ one info a (by simpa using htw one) (by simpa using hm')]
+        ring
+  | .player one info (a :: b :: as) (k :: ks), prev, s, s', n, hs, h => by
+    simp only [compile] at h
+    split at h
+    · cases h
+    · rename_i i s1 hr
+      split at h
+      · cases h
+      · rename_i nodes s2 hco
+        simp only [Except.ok.injEq, Prod.mk.injEq] at h
+        obtain ⟨rfl, rfl⟩ := h
+        simp only [Raw.Shape] at hs
+        obtain ⟨hg1, ⟨e, he, hel, hea⟩, _⟩ := registerPlayer_spec hr
+        obtain ⟨hg2, ih⟩ := compileActions_sem (k :: ks) one i 0 prev s1 s2 nodes hs.2 hco
+        refine ⟨hg1.trans hg2, fun sf hgf htw => ?_⟩
+        obtain ⟨hreg, hev⟩ := ih sf hgf htw
+        have he' : (sf.infos one)[i]? = some e := prefix_getElem? ((hg2.trans hgf).infos one) he
+        refine ⟨?_, fun σ hσ => ?_⟩
+        · simp only [Reg]
+          exact ⟨Or.inr ⟨i, e, he', hel, hea⟩, hreg⟩
+        · have hm := labelled_multi (G sf) σ one i e (by simpa using htw one) (by simpa using he')
+            (hσ one).2
+          rw [hel, hea] at hm
+          simp only [expected, rawEV]
+          rw [← hm]
+          apply hev σ hσ one info _ hs.1
+          intro x hx
+          apply isStrat_at_nonneg (σ one) (hσ one).1 i
+          rw [← hm]
+          exact List.mem_map.mpr ⟨x, hx, rfl⟩
+theorem compileOutcomes_sem : ∀ (ws : List α) (ks : List (Raw α)) (prev : Prev)
+    (s s' : BState α) (ps : List α) (ns : List (Node α)),
+    ws.length = ks.length → Raw.ShapeL ks → compileOutcomes ws ks prev s = .ok (ps, ns, s') →
+    GrowsAll s s' ∧ ps = ws ∧ ns.length = ks.length ∧ (∀ w ∈ ws, 0 < w) ∧
+      ∀ sf, GrowsAll s' sf → (∀ o, TablesWF (sf.infos o) (sf.singles o)) →
+        RegL sf ks ∧ ∀ σ, Good sf σ → ∀ t : α,
+          expectedL (G sf).chance σ false (ws.map (· / t)) ns =
+            rawEVC ((G sf).labelled σ) t ws ks
+  | [], [], prev, s, s', ps, ns, _, _, h => by
+    simp only [compileOutcomes] at h
+    cases h
+    exact ⟨GrowsAll.refl _, rfl, rfl, by simp, fun sf _ _ =>
+      ⟨by simp [RegL], fun σ _ t => by simp [expectedL, rawEVC]⟩⟩
+  | [], _ :: _, prev, s, s', ps, ns, hl, _, h => by simp at hl
+  | _ :: _, [], prev, s, s', ps, ns, hl, _, h => by simp at hl
+  | w :: ws, k :: ks, prev, s, s', ps, ns, hl, hs, h => by
+    simp only [compileOutcomes] at h
+    split_ifs at h with hw
+    split at h
+    · cases h
+    · rename_i n s1 hc1
+      split at h
+      · cases h
+      · rename_i ps' ns' s2 hc2
+        simp only [Except.ok.injEq, Prod.mk.injEq] at h
+        obtain ⟨rfl, rfl, rfl⟩ := h
+        simp only [Raw.ShapeL] at hs
+        have hw0 : 0 < w := by simpa using hw
+        obtain ⟨hg1, ih1⟩ := compile_sem k prev s s1 n hs.1 hc1
+        obtain ⟨hg2, hps, hlen, hpos, ih2⟩ :=
+          compileOutcomes_sem ws ks prev s1 s2 ps' ns' (by simpa using hl) hs.2 hc2
+        subst hps
+        refine ⟨hg1.trans hg2, rfl, by simp [hlen], ?_, fun sf hgf htw => ?_⟩
+        · intro p hp
+          rcases List.mem_cons.mp hp with rfl | hp
+          · exact hw0
+          · exact hpos p hp
+        · obtain ⟨hreg1, hev1⟩ := ih1 sf (hg2.trans hgf) htw
+          obtain ⟨hreg2, hev2⟩ := ih2 sf hgf htw
+          refine ⟨by simp only [RegL]; exact ⟨hreg1, hreg2⟩, fun σ hσ t => ?_⟩
+          simp only [List.map_cons, expectedL, rawEVC, Bool.false_and, Bool.false_eq_true,
+            if_false]
+          rw [hev1 σ hσ, hev2 σ hσ t]
+theorem compileActions_sem : ∀ (ks : List (Raw α)) (one : Bool) (i a : Nat) (prev : Prev)
+    (s s' : BState α) (ns : List (Node α)),
+    Raw.ShapeL ks → compileActions ks one i a prev s = .ok (ns, s') →
+    GrowsAll s s' ∧ ∀ sf, GrowsAll s' sf → (∀ o, TablesWF (sf.infos o) (sf.singles o)) →
+      RegL sf ks ∧ ∀ σ, Good sf σ → ∀ (o : Bool) (l : Nat) (as : List Nat),
+        as.length = ks.length → (∀ x ∈ as, 0 ≤ (G sf).labelled σ o l x) →
+          expectedL (G sf).chance σ true (as.map ((G sf).labelled σ o l)) ns =
+            rawEVP ((G sf).labelled σ) o l as ks
+  | [], one, i, a, prev, s, s', ns, _, h => by
+    simp only [compileActions] at h
+    cases h
+    refine ⟨GrowsAll.refl _, fun sf _ _ => ⟨by simp [RegL], fun σ _ o l as hl _ => ?_⟩⟩
+    have : as = [] := List.eq_nil_of_length_eq_zero (by simpa using hl)
+    subst this
+    simp [expectedL, rawEVP]
+  | k :: ks, one, i, a, prev, s, s', ns, hs, h => by
+    simp only [compileActions] at h
+    split at h
+    · cases h
+    · rename_i n s1 hc1
+      split at h
+      · cases h
+      · rename_i ns' s2 hc2
+        simp only [Except.ok.injEq, Prod.mk.injEq] at h
+        obtain ⟨rfl, rfl⟩ := h
+        simp only [Raw.ShapeL] at hs
+        obtain ⟨hg1, ih1⟩ := compile_sem k _ s s1 n hs.1 hc1
+        obtain ⟨hg2, ih2⟩ := compileActions_sem ks one i (a + 1) prev s1 s2 ns' hs.2 hc2
+        refine ⟨hg1.trans hg2, fun sf hgf htw => ?_⟩
+        obtain ⟨hreg1, hev1⟩ := ih1 sf (hg2.trans hgf) htw
+        obtain ⟨hreg2, hev2⟩ := ih2 sf hgf htw
+        refine ⟨by simp only [RegL]; exact ⟨hreg1, hreg2⟩, fun σ hσ o l as hl hnn => ?_⟩
+        match as, hl, hnn with
+        | [], hl, _ => simp at hl
+        | x :: as, hl, hnn =>
+          simp only [List.map_cons, expectedL, rawEVP]
+          rw [hev1 σ hσ, hev2 σ hσ o l as (by simpa using hl) (fun y hy => hnn y (by simp [hy]))]
+          congr 1
+          have h0 := hnn x (by simp)
+          generalize (G sf).labelled σ o l x = p at h0 ⊢
+          by_cases hp : 0 < p
+          · simp [hp]
+          · have : p = 0 := le_antisymm (not_lt.mp hp) h0
+            simp [this]
+end
+
+/-- `fromRoot` returns the game read off the final builder state -/
+theorem fromRoot_state {r : Raw α} {g : Game α} (h : fromRoot r = .ok g) :
+    ∃ root s, compile r {} {} = .ok (root, s) ∧ g = s.game root := by
+  unfold fromRoot at h
+  split at h
+  · cases h
+  · rename_i root s hc
+    simp only [Except.ok.injEq] at h
+    exact ⟨root, s, hc, h.symm⟩
+
 /-- **`from_root` preserves the meaning of the tree**: the expected payoff computed on the compiled
 game equals the expected payoff of the input tree under the labelled reading of the profile -/
 theorem compile_expected (r : Raw α) (hs : Raw.Shape r) (g : Game α) (h : fromRoot r = .ok g)
     (σ : Bool → Strat α) (hσ : ∀ me : Bool, IsStrat (σ me) ∧ FitsGame g me (σ me)) :
     expected g.chance σ g.root = rawEV (g.labelled σ) r := by
-  sorry
+  obtain ⟨root, s, hc, rfl⟩ := fromRoot_state h
+  obtain ⟨hb, _⟩ := compile_inv r {} {} s root hs BInv.empty PrevOK.empty hc
+  obtain ⟨_, ih⟩ := compile_sem r {} {} s root hs hc
+  exact (ih s (GrowsAll.refl s) hb.tables).2 σ hσ
 
 mutual
 /-- `ρ` is a behavioural strategy profile on the input tree: at every decision node the
@@ -63,15 +323,239 @@ def LValidOnL (ρ : LProfile α) : List (Raw α) → Prop
   | k :: ks => LValidOn ρ k ∧ LValidOnL ρ ks
 end
 
+
+mutual
+theorem reg_valid (sf : BState α) (htw : ∀ o, TablesWF (sf.infos o) (sf.singles o))
+    (σ : Bool → Strat α) (hσ : Good sf σ) :
+    ∀ r : Raw α, Reg sf r → LValidOn ((G sf).labelled σ) r
+  | .term _, _ => by simp [LValidOn]
+  | .chance _ _ ks, h => by
+    simp only [Reg] at h
+    simp only [LValidOn]
+    exact reg_validL sf htw σ hσ ks h
+  | .player o l as ks, h => by
+    simp only [Reg] at h
+    obtain ⟨hc, hk⟩ := h
+    simp only [LValidOn]
+    have ihk := reg_validL sf htw σ hσ ks hk
+    rcases hc with ⟨a, rfl, hm⟩ | ⟨i, e, he, rfl, rfl⟩
+    · have h1 := labelled_single (G sf) σ o l a (by simpa using htw o) (by simpa using hm)
+      refine ⟨?_, ?_, ihk⟩
+      · intro x hx
+        simp only [List.mem_singleton] at hx
+        subst hx
+        rw [h1]; exact zero_le_one
+      · simp [h1]
+    · have hm := labelled_multi (G sf) σ o i e (by simpa using htw o) (by simpa using he)
+        (hσ o).2
+      obtain ⟨v, hv, _⟩ := fits_at (G sf) o (σ o) (hσ o).2 i e (by simpa using he)
+      have e' : (σ o).at i = v := by simp [Strat.at, List.getD_eq_getElem?_getD, hv]
+      have hd : IsDist v := (hσ o).1 v (List.mem_of_getElem? hv)
+      rw [e'] at hm
+      refine ⟨?_, by rw [hm]; exact hd.2, ihk⟩
+      intro x hx
+      apply hd.1
+      rw [← hm]
+      exact List.mem_map.mpr ⟨x, hx, rfl⟩
+theorem reg_validL (sf : BState α) (htw : ∀ o, TablesWF (sf.infos o) (sf.singles o))
+    (σ : Bool → Strat α) (hσ : Good sf σ) :
+    ∀ ks : List (Raw α), RegL sf ks → LValidOnL ((G sf).labelled σ) ks
+  | [], _ => by simp [LValidOnL]
+  | k :: ks, h => by
+    simp only [RegL] at h
+    simp only [LValidOnL]
+    exact ⟨reg_valid sf htw σ hσ k h.1, reg_validL sf htw σ hσ ks h.2⟩
+end
+
+/-- the tables of the compiled game are well formed and the input tree is registered in them -/
+theorem fromRoot_reg {r : Raw α} (hs : Raw.Shape r) {root : Node α} {s : BState α}
+    (hc : compile r {} {} = .ok (root, s)) :
+    (∀ o, TablesWF (s.infos o) (s.singles o)) ∧ Reg s r := by
+  obtain ⟨hb, _⟩ := compile_inv r {} {} s root hs BInv.empty PrevOK.empty hc
+  obtain ⟨_, ih⟩ := compile_sem r {} {} s root hs hc
+  exact ⟨hb.tables, (ih s (GrowsAll.refl s) hb.tables).1⟩
+
 /-- the labelled reading of a valid indexed profile is a behavioural profile on the input tree -/
 theorem labelled_valid (r : Raw α) (hs : Raw.Shape r) (g : Game α) (h : fromRoot r = .ok g)
     (σ : Bool → Strat α) (hσ : ∀ me : Bool, IsStrat (σ me) ∧ FitsGame g me (σ me)) :
     LValidOn (g.labelled σ) r := by
-  sorry
+  obtain ⟨root, s, hc, rfl⟩ := fromRoot_state h
+  obtain ⟨htw, hreg⟩ := fromRoot_reg hs hc
+  exact reg_valid s htw σ hσ r hreg
 
 /-- the indexed profile that plays a labelled profile -/
 def Game.indexedOf (g : Game α) (ρ : LProfile α) : Bool → Strat α :=
   fun o => (g.infos o).map (fun e => e.actions.map (ρ o e.label))
+
+
+/-! ## every registered infoset comes from a node of the tree -/
+
+/-- `ρ` is a distribution on the actions of every multi-action infoset registered so far -/
+def TabOK (ρ : LProfile α) (s : BState α) : Prop :=
+  ∀ o, ∀ e ∈ s.infos o, (∀ a ∈ e.actions, 0 ≤ ρ o e.label a) ∧ (e.actions.map (ρ o e.label)).sum = 1
+
+theorem TabOK.of_infos {ρ : LProfile α} {s s' : BState α} (h : TabOK ρ s)
+    (hi : ∀ me, s'.infos me = s.infos me) : TabOK ρ s' :=
+  fun o e he => h o e (by rw [← hi o]; exact he)
+
+mutual
+theorem compile_tab (ρ : LProfile α) : ∀ (r : Raw α) (prev : Prev) (s s' : BState α) (n : Node α),
+    LValidOn ρ r → TabOK ρ s → compile r prev s = .ok (n, s') → TabOK ρ s'
+  | .term pay, prev, s, s', n, _, ht, h => by
+    simp only [compile] at h
+    split_ifs at h
+    cases h
+    exact ht
+  | .chance info ws kids, prev, s, s', n, hv, ht, h => by
+    simp only [compile] at h
+    split at h
+    · cases h
+    · rename_i probs nodes s1 hco
+      simp only [LValidOn] at hv
+      have ht1 := compileOutcomes_tab ρ ws kids prev s s1 probs nodes hv ht hco
+      obtain ⟨_, hi, _⟩ := registerChance_spec h
+      exact ht1.of_infos hi
+  | .player one info [] kids, prev, s, s', n, hv, ht, h => by
+    simp [compile] at h
+  | .player one info (a :: as) [], prev, s, s', n, hv, ht, h => by
+    simp [compile] at h
+  | .player one info [a] (k :: ks), prev, s, s', n, hv, ht, h => by
+    simp only [compile] at h
+    split at h
+    · cases h
+    · rename_i s1 hr
+      simp only [LValidOn, LValidOnL] at hv
+      obtain ⟨_, _, hi⟩ := registerSingle_spec hr
+      exact compile_tab ρ k prev s1 s' n hv.2.2.1 (ht.of_infos hi) h
+  | .player one info (a :: b :: as) (k :: ks), prev, s, s', n, hv, ht, h => by
+    simp only [compile] at h
+    split at h
+    · cases h
+    · rename_i i s1 hr
+      split at h
+      · cases h
+      · rename_i nodes s2 hco
+        simp only [Except.ok.injEq, Prod.mk.injEq] at h
+        obtain ⟨rfl, rfl⟩ := h
+        simp only [LValidOn] at hv
+        obtain ⟨_, _, hnew⟩ := registerPlayer_spec hr
+        have ht1 : TabOK ρ s1 := by
+          intro o e he
+          rcases hnew o e he with he | ⟨rfl, hel, hea⟩
+          · exact ht o e he
+          · rw [hel, hea]; exact ⟨hv.1, hv.2.1⟩
+        exact compileActions_tab ρ (k :: ks) one i 0 prev s1 s2 nodes hv.2.2 ht1 hco
+theorem compileOutcomes_tab (ρ : LProfile α) : ∀ (ws : List α) (ks : List (Raw α)) (prev : Prev)
+    (s s' : BState α) (ps : List α) (ns : List (Node α)),
+    LValidOnL ρ ks → TabOK ρ s → compileOutcomes ws ks prev s = .ok (ps, ns, s') → TabOK ρ s'
+  | [], ks, prev, s, s', ps, ns, _, ht, h => by
+    simp only [compileOutcomes] at h
+    cases h
+    exact ht
+  | _ :: _, [], prev, s, s', ps, ns, _, ht, h => by
+    simp only [compileOutcomes] at h
+    cases h
+    exact ht
+  | w :: ws, k :: ks, prev, s, s', ps, ns, hv, ht, h => by
+    simp only [compileOutcomes] at h
+    split_ifs at h with hw
+    split at h
+    · cases h
+    · rename_i n s1 hc1
+      split at h
+      · cases h
+      · rename_i ps' ns' s2 hc2
+        simp only [Except.ok.injEq, Prod.mk.injEq] at h
+        obtain ⟨rfl, rfl, rfl⟩ := h
+        simp only [LValidOnL] at hv
+        exact compileOutcomes_tab ρ ws ks prev s1 s2 ps' ns' hv.2
+          (compile_tab ρ k prev s s1 n hv.1 ht hc1) hc2
+theorem compileActions_tab (ρ : LProfile α) : ∀ (ks : List (Raw α)) (one : Bool) (i a : Nat)
+    (prev : Prev) (s s' : BState α) (ns : List (Node α)),
+    LValidOnL ρ ks → TabOK ρ s → compileActions ks one i a prev s = .ok (ns, s') → TabOK ρ s'
+  | [], one, i, a, prev, s, s', ns, _, ht, h => by
+    simp only [compileActions] at h
+    cases h
+    exact ht
+  | k :: ks, one, i, a, prev, s, s', ns, hv, ht, h => by
+    simp only [compileActions] at h
+    split at h
+    · cases h
+    · rename_i n s1 hc1
+      split at h
+      · cases h
+      · rename_i ns' s2 hc2
+        simp only [Except.ok.injEq, Prod.mk.injEq] at h
+        obtain ⟨rfl, rfl⟩ := h
+        simp only [LValidOnL] at hv
+        exact compileActions_tab ρ ks one i (a + 1) prev s1 s2 ns' hv.2
+          (compile_tab ρ k _ s s1 n hv.1 ht hc1) hc2
+end
+
+theorem indexedOf_fits (g : Game α) (ρ : LProfile α) (me : Bool) :
+    FitsGame g me (g.indexedOf ρ me) := by
+  simp [FitsGame, Game.indexedOf, Function.comp_def]
+
+/-! ## the labelled reading of `indexedOf ρ` is `ρ` on the tree -/
+
+mutual
+theorem reg_ev_congr (sf : BState α) (htw : ∀ o, TablesWF (sf.infos o) (sf.singles o))
+    (ρ : LProfile α) :
+    ∀ r : Raw α, Reg sf r → LValidOn ρ r →
+      rawEV ((G sf).labelled ((G sf).indexedOf ρ)) r = rawEV ρ r
+  | .term _, _, _ => by simp [rawEV]
+  | .chance _ ws ks, h, hv => by
+    simp only [Reg] at h
+    simp only [LValidOn] at hv
+    simp only [rawEV]
+    exact reg_evC_congr sf htw ρ ws.sum ws ks h hv
+  | .player o l as ks, h, hv => by
+    simp only [Reg] at h
+    simp only [LValidOn] at hv
+    obtain ⟨hc, hk⟩ := h
+    simp only [rawEV]
+    refine reg_evP_congr sf htw ρ o l as ks ?_ hk hv.2.2
+    rcases hc with ⟨a, rfl, hm⟩ | ⟨i, e, he, rfl, rfl⟩
+    · intro x hx
+      simp only [List.mem_singleton] at hx
+      subst hx
+      rw [labelled_single (G sf) _ o l x (by simpa using htw o) (by simpa using hm)]
+      have := hv.2.1
+      simp only [List.map_cons, List.map_nil, List.sum_cons, List.sum_nil, add_zero] at this
+      exact this.symm
+    · have hm := labelled_multi (G sf) ((G sf).indexedOf ρ) o i e (by simpa using htw o)
+        (by simpa using he) (indexedOf_fits _ ρ o)
+      have hat : ((G sf).indexedOf ρ o).at i = e.actions.map (ρ o e.label) := by
+        simp [Game.indexedOf, Strat.at, List.getD_eq_getElem?_getD, List.getElem?_map, he]
+      rw [hat] at hm
+      exact List.map_inj_left.mp hm
+theorem reg_evC_congr (sf : BState α) (htw : ∀ o, TablesWF (sf.infos o) (sf.singles o))
+    (ρ : LProfile α) (t : α) :
+    ∀ (ws : List α) (ks : List (Raw α)), RegL sf ks → LValidOnL ρ ks →
+      rawEVC ((G sf).labelled ((G sf).indexedOf ρ)) t ws ks = rawEVC ρ t ws ks
+  | [], _, _, _ => by simp [rawEVC]
+  | _ :: _, [], _, _ => by simp [rawEVC]
+  | w :: ws, k :: ks, h, hv => by
+    simp only [RegL] at h
+    simp only [LValidOnL] at hv
+    simp only [rawEVC]
+    rw [reg_ev_congr sf htw ρ k h.1 hv.1, reg_evC_congr sf htw ρ t ws ks h.2 hv.2]
+theorem reg_evP_congr (sf : BState α) (htw : ∀ o, TablesWF (sf.infos o) (sf.singles o))
+    (ρ : LProfile α) (o : Bool) (l : Nat) :
+    ∀ (as : List Nat) (ks : List (Raw α)),
+      (∀ a ∈ as, (G sf).labelled ((G sf).indexedOf ρ) o l a = ρ o l a) →
+      RegL sf ks → LValidOnL ρ ks →
+      rawEVP ((G sf).labelled ((G sf).indexedOf ρ)) o l as ks = rawEVP ρ o l as ks
+  | [], _, _, _, _ => by simp [rawEVP]
+  | _ :: _, [], _, _, _ => by simp [rawEVP]
+  | a :: as, k :: ks, ha, h, hv => by
+    simp only [RegL] at h
+    simp only [LValidOnL] at hv
+    simp only [rawEVP]
+    rw [reg_ev_congr sf htw ρ k h.1 hv.1,
+      reg_evP_congr sf htw ρ o l as ks (fun x hx => ha x (by simp [hx])) h.2 hv.2,
+      ha a (by simp)]
+end
 
 /-- conversely every behavioural profile on the input tree is played by a valid indexed profile
 of the compiled game with the same expected payoff — so maximising over indexed strategies
@@ -80,6 +564,63 @@ theorem indexedOf_valid (r : Raw α) (hs : Raw.Shape r) (g : Game α) (h : fromR
     (ρ : LProfile α) (hρ : LValidOn ρ r) :
     (∀ me : Bool, IsStrat (g.indexedOf ρ me) ∧ FitsGame g me (g.indexedOf ρ me)) ∧
     rawEV (g.labelled (g.indexedOf ρ)) r = rawEV ρ r := by
-  sorry
+  obtain ⟨root, s, hc, rfl⟩ := fromRoot_state h
+  obtain ⟨htw, hreg⟩ := fromRoot_reg hs hc
+  have ht0 : TabOK ρ ({} : BState α) := by
+    intro o e he
+    have hi0 : ({} : BState α).infos o = [] := by cases o <;> rfl
+    rw [hi0] at he
+    simp at he
+  have ht := compile_tab ρ r {} {} s root hρ ht0 hc
+  refine ⟨fun me => ⟨?_, indexedOf_fits _ ρ me⟩, reg_ev_congr s htw ρ r hreg hρ⟩
+  intro v hv
+  obtain ⟨e, he, rfl⟩ := List.mem_map.mp hv
+  obtain ⟨h1, h2⟩ := ht me e (by simpa using he)
+  refine ⟨fun p hp => ?_, h2⟩
+  obtain ⟨a, ha, rfl⟩ := List.mem_map.mp hp
+  exact h1 a ha
+
+/-! ## non-vacuity -/
+
+/-- a single-outcome chance node (weight `5`) above a named chance node with unnormalised weights
+`1 : 3`; player one has a single-action node (label `99`) and a shared two-action infoset (label
+`5`), player two a single-action node (label `2`) -/
+def exSem : Raw ℚ :=
+  .chance none [5] [
+    .chance (some 4) [1, 3]
+      [.player true 99 [42]
+        [.player true 5 [0, 1] [.term 1, .player false 2 [7] [.term 0]]],
+       .player true 5 [0, 1] [.term (-1), .term 3]]]
+
+/-- player one plays `(1/3, 2/3)` at its only multi-action infoset -/
+def exSemσ : Bool → Strat ℚ := fun o => if o then [[1/3, 2/3]] else []
+
+/-- the labelled profile written by hand -/
+def exSemρ : LProfile ℚ := fun o l a =>
+  if o && l == 5 && a == 0 then 1/3 else if o && l == 5 && a == 1 then 2/3
+  else if o && l == 99 && a == 42 then 1 else if !o && l == 2 && a == 7 then 1 else 0
+
+/-- on the example: the compiled game evaluates to `4/3`, so does the input tree under the
+labelled reading of the profile and under the hand-written labelled profile; the labelled reading
+gives the single-action node probability one and the second action of infoset `5` probability
+`2/3` -/
+def exSemCheck : Bool :=
+  match fromRoot exSem with
+  | .ok g =>
+    decide (expected g.chance exSemσ g.root = 4/3) &&
+    decide (rawEV (g.labelled exSemσ) exSem = 4/3) &&
+    decide (rawEV exSemρ exSem = 4/3) &&
+    decide (g.labelled exSemσ true 99 42 = 1) &&
+    decide (g.labelled exSemσ true 5 1 = 2/3) &&
+    decide (rawEV (g.labelled (g.indexedOf exSemρ)) exSem = 4/3)
+  | .error _ => false
+
+example : exSemCheck = true := by decide +kernel
+
+example : Raw.Shape exSem := by simp [exSem, Raw.Shape, Raw.ShapeL]
+
+example : LValidOn exSemρ exSem := by
+  simp only [exSem, LValidOn, LValidOnL]
+  norm_num [exSemρ]
 
 end Cfr
